@@ -4,14 +4,14 @@
  * %s / %c argument and every padding byte go through out_byte(), which
  *   - (C18, out_check != 0) asserts that the byte is printable ASCII or one of the tool's own \n \r \t,
  *   - (C19, OUT_RECORD) appends a 'b' token to the token stream.
- * Numeric conversions are consumed with the right argument type and reported as ONE token (kind, flags,
- * width, precision, value) without being rendered to digits: digits, sign, '.' and blank/zero padding are
+ * Decimal and floating-point conversions are consumed with the right argument type and reported as ONE token
+ * (kind, flags, width, precision, value) without being rendered to digits (%x IS rendered, see out_hex): digits, sign, '.' and blank/zero padding are
  * printable by construction (libc trusted) and C19 compares tokens, not digits.
  *   kind : 'b' byte | 'd' (%d %i, signed) | 'u' | 'x' | 'f' (fval = the value passed, converted to float)
  *   flags: 1 = '-', 2 = '0';  width 0 = none;  prec 0xff = none.  Length modifiers (l, ll) only select the
  *   argument type; %i == %d.
- * lha_arch_vasprintf is modelled by the same interpreter rendering into a static buffer (only %s, %c and %x
- * are rendered there), so the real safe_output() sees - and rewrites - the real formatted string.
+ * lha_arch_vasprintf is modelled by the same interpreter rendering into a static buffer (%s, %c and %x; other
+ * conversions are not rendered there and fail an "output model" check), so the real safe_output() sees - and rewrites - the real formatted string.
  *
  * Usage: #include "out_model.h", then OUT_REDIRECT_BEGIN-style defines (see out_redirect.h) around the
  * #include of the real sources, so that the model itself and the CHECK macros keep the real libc names. */
@@ -124,14 +124,28 @@ static void out_str(OutSink *k, const char *s, u8 flags, u8 width, u8 prec)
 	}
 }
 
-static void out_hex(OutSink *k, u8 flags, u8 width, unsigned v)
+static void out_hex(OutSink *k, u8 flags, u8 width, u64 v, unsigned bits)
 {
-	/* only used when a hex conversion is rendered into the vasprintf buffer */
-	unsigned nd = 1, i;
-	for (i = 1; i < 8; ++i) if ((v >> (4 * i)) != 0) nd = i + 1;
-	if (!(flags & 1)) for (i = nd; i < width; ++i) out_put(k, (flags & 2) ? '0' : ' ', OUT_PAD);
-	for (i = 0; i < 8; ++i) if (8 - i <= nd) out_put(k, (u8) "0123456789abcdef"[(v >> (4 * (7 - i))) & 15], OUT_LIT);
-	if (flags & 1) out_pad(k, nd, width);
+	/* %x is RENDERED (no division needed): the hex digits are bytes of the stream, so that a CRC printed by
+	 * printf("%04x") and one formatted by safe_printf("... %04x") give the same stream.  `bits` = width of the
+	 * argument that was passed: digit positions above it are known to be absent, and inside the field width
+	 * every position emits exactly one byte (digit or padding), so the byte count is concrete for "%04x" of a
+	 * 16-bit value. */
+	int d;
+	unsigned emitted = 0, top = (bits + 3) / 4;
+	if (flags & 1) {
+		for (d = (int) top - 1; d >= 0; --d)
+			if (d == 0 || (v >> (4 * d)) != 0) { out_put(k, (u8) "0123456789abcdef"[(v >> (4 * d)) & 15], OUT_LIT); ++emitted; }
+		out_pad(k, emitted, width);
+		return;
+	}
+	if (width > top) { unsigned i; for (i = top; i < width; ++i) out_put(k, (flags & 2) ? '0' : ' ', OUT_PAD); }
+	for (d = (int) top - 1; d >= 0; --d) {
+		int significant = d == 0 || (v >> (4 * d)) != 0;
+		u8 digit = (u8) "0123456789abcdef"[(v >> (4 * d)) & 15];
+		if ((unsigned) d < width) out_put(k, significant ? digit : (u8) ((flags & 2) ? '0' : ' '), significant ? OUT_LIT : OUT_PAD);
+		else if (significant) out_put(k, digit, OUT_LIT);
+	}
 }
 
 /* Fetching variadic arguments.  goto-cc (CBMC 6.11) does not apply the default argument promotions to the
@@ -154,10 +168,12 @@ static double out_slot_double(void *p)
 	return *(double *) p;
 }
 #define OUT_SLOT(ap)            (*(void **) (ap))
+#define OUT_ARG_BITS(ap, lng)   ((unsigned) (8 * __CPROVER_OBJECT_SIZE(OUT_SLOT(ap))))
 #define OUT_ARG_INT(ap, v)      ((v) = out_slot_int(OUT_SLOT(ap)), (void) va_arg(ap, int))
 #define OUT_ARG_LONG(ap, v)     ((v) = out_slot_int(OUT_SLOT(ap)), (void) va_arg(ap, int))
 #define OUT_ARG_DOUBLE(ap, v)   ((v) = out_slot_double(OUT_SLOT(ap)), (void) va_arg(ap, int))
 #else
+#define OUT_ARG_BITS(ap, lng)   ((lng) ? 64u : 32u)
 #define OUT_ARG_INT(ap, v)      ((v) = (long) va_arg(ap, int))
 #define OUT_ARG_LONG(ap, v)     ((v) = va_arg(ap, long))
 #define OUT_ARG_DOUBLE(ap, v)   ((v) = va_arg(ap, double))
@@ -200,11 +216,9 @@ static int out_vformat(OutSink *k, const char *fmt, va_list ap)
 			break;
 		}
 		case 'x': {
-			long sv; u64 v;
+			long sv; unsigned bits = OUT_ARG_BITS(ap, lng);
 			if (lng) OUT_ARG_LONG(ap, sv); else { OUT_ARG_INT(ap, sv); sv = (long) (unsigned int) sv; }
-			v = (u64) sv;
-			if (k->buf == NULL) { out_token('x', flags, width, prec, v); exact = 0; }
-			else out_hex(k, flags, width, (unsigned) v);
+			out_hex(k, flags, width, (u64) sv, bits);
 			break;
 		}
 		case 'f': {
